@@ -2,9 +2,9 @@
 # tools/run_all.sh [tier] — run every claimed check sequentially, print the summary lines and exit codes
 T="${1:-quick}"
 cd "$(dirname "$0")/.." || exit 1
-for i in 01 02 03 04 05 06 07 08 09 10 11 12 13 14 15 16 17 18 19 20; do
+for i in ${ONLY:-01 02 03 04 05 06 07 08 09 10 11 12 13 14 15 16 17 18 19 20}; do
   s=$(date +%s)
-  ./vcheck C$i --tier $T > /tmp/run_C$i.log 2>&1; rc=$?
+  timeout ${TMO:-7200} ./vcheck C$i --tier $T > /tmp/run_C$i.log 2>&1; rc=$?
   e=$(date +%s)
   echo "C$i rc=$rc $((e-s))s $(grep '^\[C' /tmp/run_C$i.log | tail -1 | cut -c1-200)"
 done
